@@ -7,6 +7,8 @@
   * `K = ℝ`: there is no infinity, every test is `false` (`Lemmas/RTransform.lean`),
     so `_convert_inf` is the identity on the reals.
 
+  `pyIndex`: Python indexing of a 1-D array (used by the generated static helpers).
+
   `ExtVal`/`convertInfExt`: the specification of `_convert_inf` on values extended by
   `±∞` (DESIGN C03 item 5); the generated `Float` definition is tied to it by
   correspondence at the end points.
@@ -36,6 +38,13 @@ instance : HasInf Float where
   eqNegInf x := x == (-1.0 / 0.0)
   isInf x := x.isInf
   sign := floatSign
+
+/-- `a[i]` for a one-dimensional array `a` and a Python integer `i`: a negative index counts from
+the end; an index outside `-len(a) ≤ i < len(a)` is an `IndexError` (`none`). -/
+def pyIndex {K : Type} (a : List K) (i : Int) : Option K :=
+  if 0 ≤ i then a[i.toNat]?
+  else if 0 ≤ (a.length : Int) + i then a[((a.length : Int) + i).toNat]?
+  else none
 
 /-- A value of `K` or one of the two infinities. -/
 inductive ExtVal (K : Type) where
